@@ -42,14 +42,57 @@
 #include "C13/bp_env.h"
 #include "C13/w17_own.h"
 
-#define C13_MEM_NO_WITNESS	/* no branch of the code under test reads payload */
-#include "C13/c13_mem.h"
+/* memcpy / memset of the code under test: payload copies are extent checks
+ * (no branch and no obligation here reads payload bytes); get_new_block's
+ * memset(blk, 0, sizeof(*blk)) zeroes the header field by field */
+static void *w17_memcpy(void *dst, const void *src, size_t n)
+{
+	VERIF_ASSERT(VERIF_R_OK(src, n) && VERIF_W_OK(dst, n), "C13.env.memcpy.extent");
+#ifdef VERIF_REPLAY
+	return memcpy(dst, src, n);
+#else
+	return dst;
+#endif
+}
+
+static void *w17_memset(void *dst, int c, size_t n)
+{
+	VERIF_ASSERT(VERIF_W_OK(dst, n), "C13.env.memset.extent");
+#ifdef VERIF_REPLAY
+	return memset(dst, c, n);
+#else
+	if (n == sizeof(sqfs_block_t) && c == 0) {
+		sqfs_block_t *b = dst;
+
+		b->next = NULL;
+		b->inode = NULL;
+		b->io_seq_num = 0;
+		b->flags = 0;
+		b->size = 0;
+		b->checksum = 0;
+		b->index = 0;
+		b->user = NULL;
+	}
+	return dst;
+#endif
+}
+#define memcpy w17_memcpy
+#define memset w17_memset
 #undef malloc
 #define malloc w17_block_malloc
 #define free w17_free
 
+#ifndef OP
+#define OP 1
+#endif
+/* the back end is the real one where it is the subject (6, 7, 8); the front
+ * end operations and sync/finish see dequeue_block through its contract */
+#define W17_REAL_BACKEND (OP == 6 || OP == 7 || OP == 8)
+
 #include "lib/sqfs/src/block_processor/frontend.c"
+#if W17_REAL_BACKEND
 #include "lib/sqfs/src/block_processor/backend.c"
+#endif
 #include "lib/sqfs/src/block_processor/block_processor.c"
 
 #undef free
@@ -59,14 +102,11 @@
 #undef memcpy
 #undef memset
 
-#ifndef OP
-#define OP 1
-#endif
 #ifndef W17_RB
 #define W17_RB 0
 #endif
 #ifndef APPEND_MAX
-#define APPEND_MAX (2 * BP_BS + 1)
+#define APPEND_MAX (BP_BS + 1)
 #endif
 
 #define USERF ((sqfs_u32)SQFS_BLK_USER_SETTABLE_FLAGS)
@@ -86,6 +126,233 @@ void hash_table_destroy(struct hash_table *ht,
 	}
 }
 
+/* ---- ownership transfers the contracts below are made of ------------------- */
+static sqfs_block_t *w17_take_pool_head(void)
+{
+	sqfs_block_t *b = g_poolq[0];
+	unsigned i;
+	int k = w17_find(b);
+
+	for (i = 0; i + 1 < W17_NB; ++i)
+		g_poolq[i] = g_poolq[i + 1];
+	g_pool_n -= 1;
+	if (k >= 0)
+		g_tab_pool[k] = false;
+	return b;
+}
+
+static void w17_release(sqfs_block_t *b)
+{
+	b->next = g_proc.free_list;
+	g_proc.free_list = b;
+	if (g_proc.backlog > 0)
+		g_proc.backlog -= 1;
+}
+
+#if !W17_REAL_BACKEND
+/* dequeue_block as the front end sees it. Established on the real function in
+ * case `dequeue` (OP 8): it preserves INV_OWN, never touches blk_current or a
+ * block in the caller's hand, and returns 0 only after at least one block went
+ * back to the free list (backlog lowered). Here: up to W17_DEQ_MOVES ownership
+ * transfers among pool, I/O queue, free list and fragment block, then failure
+ * or - if something was released - success. */
+#ifndef W17_DEQ_MOVES
+#define W17_DEQ_MOVES 2
+#endif
+static unsigned g_deqc_calls, g_deqc_ok;
+
+int dequeue_block(sqfs_block_processor_t *proc)
+{
+	unsigned step, released = 0;
+	sqfs_block_t *b;
+
+	VERIF_ASSERT(proc == &g_proc && proc->backlog >= 1, "C13.env.dequeue_block.pre");
+	g_deqc_calls += 1;
+	for (step = 0; step < W17_DEQ_MOVES; ++step) {
+		switch (verif_nd_u8("dequeue.move") % 6) {
+		case 0:	/* a written block is recycled */
+			if (proc->io_queue != NULL) {
+				b = proc->io_queue;
+				proc->io_queue = b->next;
+				w17_release(b);
+				released += 1;
+			}
+			break;
+		case 1:	/* a completed block waits for its turn */
+			if (g_pool_n > 0) {
+				b = w17_take_pool_head();
+				b->next = proc->io_queue;
+				proc->io_queue = b;
+			}
+			break;
+		case 2:	/* a tail end is merged / deduplicated / dropped */
+			if (g_pool_n > 0) {
+				w17_release(w17_take_pool_head());
+				released += 1;
+			}
+			break;
+		case 3:	/* a tail end starts a new fragment block */
+			if (g_pool_n > 0 && proc->frag_block == NULL) {
+				proc->frag_block = w17_take_pool_head();
+				proc->frag_block->flags &= SQFS_BLK_DONT_COMPRESS;
+				proc->frag_block->flags |= SQFS_BLK_FRAGMENT_BLOCK;
+			}
+			break;
+		case 4:	/* the full fragment block is submitted (or refused) */
+			if (proc->frag_block != NULL) {
+				b = proc->frag_block;
+				proc->frag_block = NULL;
+				if (g_pool_n < W17_NB && verif_nd_bool("dequeue.frag_submitted")) {
+					w17_into_pool(b);
+				} else {
+					b->next = proc->free_list;
+					proc->free_list = b;
+				}
+			}
+			break;
+		default:
+			break;
+		}
+	}
+	if (released == 0 || verif_nd_bool("dequeue.fail")) {
+		g_fault = true;
+		return c14_error_code("dequeue.err");
+	}
+	g_deqc_ok += 1;
+	return 0;
+}
+/* get_new_block / enqueue_block as sqfs_block_processor_append sees them
+ * (harness w17_own_app, substituted by goto-instrument --replace-calls; append
+ * with the real ones inlined into its loop: no result in 10 minutes). Both are
+ * established on the real functions: cases get_new_block_* (success: a live,
+ * zeroed block that is in none of the processor's places; INV_OWN otherwise
+ * preserved) and enqueue_* (success: the pool has the block; failure: it is on
+ * the free list). */
+int w17_gnb_contract(sqfs_block_processor_t *proc, sqfs_block_t **out)
+{
+	sqfs_block_t *blk;
+	int ret;
+
+	VERIF_ASSERT(proc == &g_proc, "C13.env.get_new_block.pre");
+	if (proc->backlog >= proc->max_backlog) {
+		ret = dequeue_block(proc);
+		if (ret != 0)
+			return ret;
+	}
+	if (proc->free_list != NULL) {
+		blk = proc->free_list;
+		proc->free_list = blk->next;
+	} else {
+		blk = w17_block_malloc(sizeof(*blk) + BP_BS);
+		if (blk == NULL)
+			return SQFS_ERROR_ALLOC;
+	}
+	blk->next = NULL;
+	blk->inode = NULL;
+	blk->io_seq_num = 0;
+	blk->flags = 0;
+	blk->size = 0;
+	blk->checksum = 0;
+	blk->index = 0;
+	blk->user = NULL;
+	*out = blk;
+	proc->backlog += 1;
+	return 0;
+}
+
+int w17_enq_contract(sqfs_block_processor_t *proc, sqfs_block_t *blk)
+{
+	int k = w17_find(blk);
+
+	VERIF_ASSERT(proc == &g_proc, "C13.env.enqueue_block.pre");
+	/* a freed block, or one the pool already holds, must never be submitted */
+	VERIF_ASSERT(k >= 0 && !g_tab_freed[k] && !g_tab_pool[k], "C13.bp.single_owner");
+	w17_worker_may_fail();
+	if (k < 0 || g_pstatus != 0 || g_pool_n >= W17_NB ||
+	    verif_nd_bool("enqueue.submit_nomem")) {
+		g_fault = true;
+		g_submit_fail += 1;
+		blk->next = proc->free_list;
+		proc->free_list = blk;
+		return g_pstatus != 0 ? g_pstatus : SQFS_ERROR_ALLOC;
+	}
+	g_poolq[g_pool_n] = blk;
+	g_pool_n += 1;
+	g_tab_pool[k] = true;
+	g_submit_ok += 1;
+	return 0;
+}
+
+#define DEQ_OK g_deqc_ok	/* cover points below: "a dequeue went through" */
+#define DEQ_NULL (g_deqc_calls - g_deqc_ok)
+#else
+#define DEQ_OK g_deq_ok
+#define DEQ_NULL g_deq_null
+/* process_completed_block / process_completed_fragment as dequeue_block sees
+ * them (case `dequeue`, substituted by goto-instrument --replace-calls; the
+ * real ones are cases `pcb` and `pcf`): */
+int w17_pcb_contract(sqfs_block_processor_t *proc, sqfs_block_t *blk)
+{
+	int k = w17_find(blk);
+
+	/* the block is in nobody's list any more: dequeue_block unlinked it */
+	VERIF_ASSERT(proc == &g_proc && k >= 0 && !g_tab_freed[k] && !g_tab_pool[k],
+		     "C13.env.process_completed_block.pre");
+	g_wdb_calls += 1;
+	if ((blk->flags & SQFS_BLK_FRAGMENT_BLOCK) && proc->fblk_in_flight != NULL &&
+	    verif_nd_bool("pcb.copy_matches")) {
+		sqfs_block_t *it = proc->fblk_in_flight;
+
+		proc->fblk_in_flight = it->next;
+		w17_free(it);
+	}
+	w17_release(blk);
+	if (verif_nd_bool("pcb.fail")) {
+		g_fault = true;
+		return c14_error_code("pcb.err");
+	}
+	return 0;
+}
+
+int w17_pcf_contract(sqfs_block_processor_t *proc, sqfs_block_t *frag)
+{
+	int k = w17_find(frag), err;
+
+	VERIF_ASSERT(proc == &g_proc && k >= 0 && !g_tab_freed[k] && !g_tab_pool[k] &&
+		     (frag->flags & SQFS_BLK_IS_FRAGMENT),
+		     "C13.env.process_completed_fragment.pre");
+	switch (verif_nd_u8("pcf.outcome") % 3) {
+	case 0:	/* sparse / deduplicated / merged / early failure: recycled */
+		w17_release(frag);
+		break;
+	case 1:	/* the fragment block is full: submit it, start a new one */
+		if (proc->frag_block != NULL) {
+			err = enqueue_block(proc, proc->frag_block);
+			proc->frag_block = NULL;
+			if (err) {
+				w17_release(frag);
+				return err;
+			}
+		}
+		/* fall through */
+	default:
+		if (proc->frag_block != NULL) {
+			w17_release(frag);
+			break;
+		}
+		proc->frag_block = frag;
+		frag->flags &= SQFS_BLK_DONT_COMPRESS;
+		frag->flags |= SQFS_BLK_FRAGMENT_BLOCK;
+		break;
+	}
+	if (verif_nd_bool("pcf.fail")) {
+		g_fault = true;
+		return c14_error_code("pcf.err");
+	}
+	return 0;
+}
+#endif
+
 static sqfs_inode_generic_t *g_ino;	/* the inode slot blocks may point at */
 
 static sqfs_inode_generic_t **nd_inode(void)
@@ -93,10 +360,28 @@ static sqfs_inode_generic_t **nd_inode(void)
 	return verif_nd_bool("blk.with_inode") ? &g_ino : NULL;
 }
 
-/* arbitrary state within INV_OWN and the bounds of the label */
+/* SHAPE (case parameters, DESIGN 2.4 "shape concrete, values symbolic"): which
+ * of the single places are occupied and how long the lists are */
+#ifndef W17_CUR
+#define W17_CUR 1	/* a current block exists */
+#endif
+#ifndef W17_FB
+#define W17_FB 1	/* a fragment block is being filled */
+#endif
+#ifndef W17_NFREE
+#define W17_NFREE 2	/* nodes on the free list */
+#endif
+#ifndef W17_NIOQ
+#define W17_NIOQ 1	/* completed blocks waiting for their turn */
+#endif
+#ifndef W17_NPOOL
+#define W17_NPOOL 2	/* blocks inside the pool */
+#endif
+
+/* arbitrary state of that shape within INV_OWN; block headers symbolic */
 static void setup_state(bool may_have_current)
 {
-	unsigned n, i;
+	unsigned i;
 	sqfs_block_t *b;
 
 	g_ino = bp_new_inode();
@@ -112,44 +397,36 @@ static void setup_state(bool may_have_current)
 	g_proc.uncmp = &g_uncmp_obj;
 #endif
 
-	if (may_have_current && verif_nd_bool("with_current"))
+#if W17_CUR
+	if (may_have_current)
 		g_proc.blk_current = w17_blk(0, USERF | SQFS_BLK_FIRST_BLOCK, nd_inode());
-	if (verif_nd_bool("with_frag_block"))
-		g_proc.frag_block = w17_blk(SQFS_BLK_FRAGMENT_BLOCK,
-					    SQFS_BLK_DONT_COMPRESS, nd_inode());
-#if W17_RB
-	if (verif_nd_bool("with_cached"))
-		g_proc.cached_frag_blk = w17_blk(0, 0, NULL);
-	if (verif_nd_bool("with_in_flight"))
-		g_proc.fblk_in_flight = w17_blk(0, 0, NULL);
+#else
+	(void)may_have_current;
 #endif
-	n = verif_nd_u8("free_list.len");
-	VERIF_ASSUME(n <= 2);
-	for (i = 0; i < 2; ++i) {
-		if (i < n) {
-			b = w17_blk(0, ALLF, NULL);
-			b->next = g_proc.free_list;
-			g_proc.free_list = b;
-		}
+#if W17_FB
+	g_proc.frag_block = w17_blk(SQFS_BLK_FRAGMENT_BLOCK, SQFS_BLK_DONT_COMPRESS,
+				    nd_inode());
+#endif
+#if W17_RB
+	/* the cache block and one in-flight copy of a submitted fragment block */
+	g_proc.cached_frag_blk = w17_blk(0, 0, NULL);
+	g_proc.fblk_in_flight = w17_blk(0, 0, NULL);
+#endif
+	for (i = 0; i < W17_NFREE; ++i) {
+		b = w17_blk(0, ALLF, NULL);
+		b->next = g_proc.free_list;
+		g_proc.free_list = b;
 	}
-	n = verif_nd_u8("io_queue.len");
-	VERIF_ASSUME(n <= 2);
-	for (i = 0; i < 2; ++i) {
-		if (i < n) {
-			b = w17_blk(0, ALLF & ~(sqfs_u32)SQFS_BLK_IS_FRAGMENT, nd_inode());
-			/* store_io_block keeps the queue sorted */
-			VERIF_ASSUME(g_proc.io_queue == NULL ||
-				     b->io_seq_num <= g_proc.io_queue->io_seq_num);
-			b->next = g_proc.io_queue;
-			g_proc.io_queue = b;
-		}
+	for (i = 0; i < W17_NIOQ; ++i) {
+		b = w17_blk(0, ALLF & ~(sqfs_u32)SQFS_BLK_IS_FRAGMENT, nd_inode());
+		/* store_io_block keeps the queue sorted */
+		VERIF_ASSUME(g_proc.io_queue == NULL ||
+			     b->io_seq_num <= g_proc.io_queue->io_seq_num);
+		b->next = g_proc.io_queue;
+		g_proc.io_queue = b;
 	}
-	n = verif_nd_u8("pool.len");
-	VERIF_ASSUME(n <= 2);
-	for (i = 0; i < 2; ++i) {
-		if (i < n)
-			w17_into_pool(w17_blk(0, ALLF, nd_inode()));
-	}
+	for (i = 0; i < W17_NPOOL; ++i)
+		w17_into_pool(w17_blk(0, ALLF, nd_inode()));
 	g_pstatus = verif_nd_bool("pool.failed_before") ?
 		c14_error_code("pool.status0") : 0;
 	w17_owner_assume();
@@ -171,7 +448,8 @@ static void destroy_and_check(void)
 	for (i = 0; i < W17_NB; ++i) {
 		/* everything the processor owned is gone; what the pool or
 		 * the caller holds is not the processor's to free */
-		if (i < g_tab_n && !g_tab_freed[i] && !g_tab_pool[i] && !g_tab_caller[i])
+		if (i < g_tab_n && !g_tab_freed[i] && !g_tab_pool[i] && !g_tab_caller[i] &&
+		    !g_tab_orphan[i])
 			blocks_ok = false;
 	}
 	VERIF_ASSERT(blocks_ok, "C13.bp.destroy_safe");
@@ -180,10 +458,12 @@ static void destroy_and_check(void)
 	VERIF_ASSERT(g_obj_destroyed == (g_proc.frag_tbl != NULL ? 1u : 0u) + 1u +
 		     (W17_RB ? 2u : 0u), "C13.bp.destroy_safe");
 
-	/* end of the process: what the pool and the caller still hold, the
-	 * caller's inode (so that --memory-leak-check sees only real leaks) */
+	/* end of the process: what the pool and the caller still hold, blocks
+	 * already reported by C13.bp.no_orphan, the caller's inode (so that
+	 * --memory-leak-check reports what the table does not know) */
 	for (i = 0; i < W17_NB; ++i) {
-		if (i < g_tab_n && !g_tab_freed[i] && (g_tab_pool[i] || g_tab_caller[i])) {
+		if (i < g_tab_n && !g_tab_freed[i] &&
+		    (g_tab_pool[i] || g_tab_caller[i] || g_tab_orphan[i])) {
 			g_tab_freed[i] = true;
 			free(g_tab[i]);
 		}
@@ -196,6 +476,9 @@ void harness(void)
 	int ret = 0;
 
 	w17_env_init();
+#if !W17_REAL_BACKEND
+	g_deqc_calls = g_deqc_ok = 0;
+#endif
 
 #if OP == 0
 	/* -------------------------------------------------------- begin_file */
@@ -237,13 +520,22 @@ void harness(void)
 #endif
 		w17_owner_check();
 		VERIF_ASSERT(g_proc.backlog <= g_proc.max_backlog, "C13.bp.backlog_le_max");
-		VERIF_COVER(ret == 0 && g_submit_ok == 2);
-		VERIF_COVER(ret == 0 && g_submit_ok == 1 && cur != NULL);
+		VERIF_COVER(ret == 0 && g_submit_ok >= 1);
+#if W17_CUR
+		/* the pool refuses the current block: it is on the free list and
+		 * nowhere else */
 		VERIF_COVER(ret != 0 && g_submit_fail == 1 && cur != NULL &&
-			    g_proc.blk_current == NULL);
+			    g_proc.blk_current == NULL && g_proc.free_list == cur);
+#else
+		(void)cur;
+#endif
+#if W17_NFREE == 0
 		VERIF_COVER(ret != 0 && g_blk_alloc_faults == 1);
-		VERIF_COVER(ret != 0 && g_deq_null == 1);
-		VERIF_COVER(ret == 0 && g_deq_ok >= 1 && g_blk_allocs == 1);
+#endif
+		VERIF_COVER(ret != 0 && DEQ_NULL == 1);
+#if W17_NIOQ + W17_NPOOL > 0
+		VERIF_COVER(ret == 0 && DEQ_OK >= 1);
+#endif
 		destroy_and_check();
 	}
 #elif OP == 3
@@ -260,7 +552,9 @@ void harness(void)
 		VERIF_ASSERT(g_proc.backlog <= g_proc.max_backlog, "C13.bp.backlog_le_max");
 		VERIF_COVER(ret == 0 && g_submit_ok == 1);
 		VERIF_COVER(ret != 0 && g_submit_fail == 1);
+#if W17_NFREE == 0
 		VERIF_COVER(ret != 0 && g_blk_alloc_faults == 1);
+#endif
 		VERIF_COVER(ret == SQFS_ERROR_OVERFLOW);
 		destroy_and_check();
 	}
@@ -302,15 +596,23 @@ void harness(void)
 			/* handed to the caller: not on the free list any more */
 			k = w17_find(out);
 			VERIF_ASSERT(k >= 0 && !g_tab_freed[k], "C13.bp.single_owner");
+			VERIF_ASSERT(out->size == 0 && out->next == NULL && out->flags == 0 &&
+				     out->inode == NULL, "C13.bp.get_new_block.zeroed");
 			if (k >= 0)
 				g_tab_caller[k] = true;
 		}
 		w17_owner_check();
 		VERIF_ASSERT(g_proc.backlog <= g_proc.max_backlog, "C13.bp.backlog_le_max");
+#if W17_NFREE == 0
 		VERIF_COVER(ret == 0 && g_blk_allocs == 1);
-		VERIF_COVER(ret == 0 && g_blk_allocs == 0 && g_deq_ok >= 1);
 		VERIF_COVER(ret != 0 && g_blk_alloc_faults == 1);
-		VERIF_COVER(ret != 0 && g_deq_null == 1);
+#else
+		VERIF_COVER(ret == 0 && g_blk_allocs == 0);
+#endif
+#if W17_NIOQ + W17_NPOOL > 0
+		VERIF_COVER(ret == 0 && DEQ_OK >= 1);
+#endif
+		VERIF_COVER(ret != 0 && DEQ_NULL == 1);
 		destroy_and_check();
 	}
 #elif OP == 6
@@ -347,9 +649,13 @@ void harness(void)
 		frag = w17_blk(SQFS_BLK_IS_FRAGMENT, ALLF, nd_inode());
 		ret = process_completed_fragment(&g_proc, frag);
 		w17_owner_check();
+#if W17_FB
 		VERIF_COVER(ret == 0 && g_proc.frag_block == frag && fb0 != NULL && g_submit_ok == 1);
 		VERIF_COVER(ret == 0 && g_proc.frag_block == fb0 && fb0 != NULL && g_ht_inserted == 1);
 		VERIF_COVER(ret != 0 && g_submit_fail == 1);
+#else
+		VERIF_COVER(ret == 0 && g_proc.frag_block == frag && fb0 == NULL);
+#endif
 		VERIF_COVER(ret != 0 && g_proc.frag_block == frag);
 		VERIF_COVER(ret != 0 && g_proc.free_list == frag);
 		destroy_and_check();
@@ -358,19 +664,39 @@ void harness(void)
 	/* ----------------------------------------------------- dequeue_block */
 	{
 		sqfs_block_t *cur;
+		size_t backlog0;
 
 		setup_state(true);
 		cur = g_proc.blk_current;
 		VERIF_ASSUME(g_proc.backlog >= 1);
+		backlog0 = g_proc.backlog;
 		ret = dequeue_block(&g_proc);
 		w17_owner_check();
 		/* never touches the block the front end is filling */
 		VERIF_ASSERT(g_proc.blk_current == cur, "C13.bp.single_owner");
-		VERIF_COVER(ret == 0 && g_deq_ok == 2);
+		/* what the front end's back-pressure loop and sync() rely on: success
+		 * means a block was recycled - or nothing but the current / fragment
+		 * block is left (the two cases sync() tests before it calls) */
+		if (ret == 0)
+			VERIF_ASSERT(g_proc.backlog < backlog0 ||
+				     (g_proc.backlog == 1 && (g_proc.frag_block != NULL || cur != NULL)) ||
+				     (g_proc.backlog == 2 && g_proc.frag_block != NULL && cur != NULL),
+				     "C13.bp.dequeue_lowers_backlog");
+		VERIF_ASSERT(g_proc.backlog <= backlog0, "C13.bp.dequeue_lowers_backlog");
+#if W17_NPOOL == 2
+		VERIF_COVER(ret == 0 && DEQ_OK == 2);
+#endif
+#if W17_NIOQ == 2
 		VERIF_COVER(ret == 0 && g_wdb_calls == 2);
-		VERIF_COVER(ret != 0 && g_deq_null == 1);
-		VERIF_COVER(ret != 0 && g_deq_ok == 1 && g_pstatus != 0);
+#endif
+		VERIF_COVER(ret != 0 && DEQ_NULL == 1);
+#if W17_NPOOL >= 1
+		VERIF_COVER(ret != 0 && DEQ_OK == 1 && g_pstatus != 0);
+#endif
+#if W17_NIOQ + W17_NPOOL >= 1
+		VERIF_COVER(ret == 0 && g_wdb_calls == 1);
 		VERIF_COVER(ret != 0 && g_wdb_calls == 1);
+#endif
 		destroy_and_check();
 	}
 #elif OP == 9 || OP == 10
@@ -384,10 +710,12 @@ void harness(void)
 		ret = sqfs_block_processor_finish(&g_proc);
 #endif
 		w17_owner_check();
-		VERIF_COVER(ret == 0 && g_deq_ok >= 1);
-		VERIF_COVER(ret == 0 && g_deq_ok == 0);
+#if W17_NIOQ + W17_NPOOL > 0
+		VERIF_COVER(ret == 0 && DEQ_OK >= 1);
+#endif
+		VERIF_COVER(ret == 0 && DEQ_OK == 0);
 		VERIF_COVER(ret != 0);
-#if OP == 10
+#if OP == 10 && W17_FB
 		VERIF_COVER(ret == 0 && g_submit_ok == 1);
 		VERIF_COVER(ret != 0 && g_submit_fail == 1);
 #endif
